@@ -18,7 +18,7 @@ import networkx as nx
 from common import Atom, Case, Run, call_impl, prepare, ImplError, enc_graph, enc_mapper, load_known_findings, canon
 import gen_tables_c05 as gt
 
-PROOFS = ["FGVerif.Proofs.C05"]
+PROOFS = ["FGVerif.Proofs.C05", "FGVerif.Proofs.C05Bridge"]
 
 # ---------------------------------------------------------------------------
 # encoders
@@ -772,9 +772,12 @@ def run(tier, seed):
              "connected patterns with group_atoms and anti-patterns; require_implicit_hydrogen both ways; "
              "non-trivial = query with at least one returned entry, distinct by (configuration, graph, flag); "
              "plus direct is_functional_group comparisons",
-        checker_cmd="cd lean && lake build FGVerif.Proofs.C05 && lake env lean FGVerif/Audit/C05.lean",
+        checker_cmd="cd lean && lake build FGVerif.Proofs.C05 FGVerif.Proofs.C05Bridge && lake env lean FGVerif/Audit/C05.lean",
         explanation="theorems in lean/FGVerif/Proofs/C05.lean about Model/C05.lean (justified, ids_are_input_atoms, "
-                    "locally_most_specific, most_specific, covering, bridge); model tied to fgutils.query by exact "
+                    "locally_most_specific, most_specific, covering, bridge) and Proofs/C05Bridge.lean (the matcher "
+                    "hypotheses of the bridge discharged from C03/C04: matcherComplete_model, "
+                    "matcherSoundAt_model_forest, capstone spec_acyclic / spec_mixed_dec = the property verbatim on "
+                    "the acyclic sub-domain); model tied to fgutils.query by exact "
                     "end-to-end differential testing; executable specification with true embeddings "
                     "(C05.specFailures) applied to every implementation output; K3 decided per case by tracing the "
                     "real map_subgraph result and testing it with an independent embedding oracle")
